@@ -88,6 +88,7 @@ type FuncContract struct {
 	Effects  []string
 	CondEffects  []*Clause
 	CallRequires []*Clause
+	CallAssumes  []*Clause
 }
 
 type CallbackContract struct {
@@ -202,6 +203,16 @@ func parseContracts(fset *token.FileSet, f *ast.File, pkgPath string) ([]*FuncCo
 				}
 				cl.CbName, cl.Text = fs[0], strings.TrimSpace(fs[1])
 				cur.CallRequires = append(cur.CallRequires, cl)
+			case "callassumes":
+				// callassumes CALLEE EXPR : after every call of CALLEE made by this function, EXPR (over this function's
+				// variables and ret0..retN, the call's results) is ASSUMED: a fact about that call site which the callee's
+				// own contract cannot state (e.g. what a closure passed to it returned). Listed as an assumption.
+				fs := strings.SplitN(rest, " ", 2)
+				if len(fs) != 2 {
+					return nil, fmt.Errorf("%s: callassumes CALLEE EXPR", fset.Position(cm.Pos()))
+				}
+				cl.CbName, cl.Text = fs[0], strings.TrimSpace(fs[1])
+				cur.CallAssumes = append(cur.CallAssumes, cl)
 			case "abstractdiv":
 				cur.AbstractDiv = true
 			case "reveal":
